@@ -16,12 +16,17 @@ EXPLANATION = (
     "node type around nested sums/products).  Value preservation is decided per instance by an exact rational-function "
     "normal form (cross-multiplied polynomial equality over the rationals) and by exact evaluation in three rational "
     "environments; normal-form clauses (flatness, neutral elements, at most one constant, no sum beneath product / integer "
-    "power, pairwise distinct monomials) are predicates written from the statement.  Proved kernel (z3, real arithmetic): "
-    "FlattenMapper.map_sum / map_product for every arity 0..3 and DistributeMapper.map_quotient preserve the value given "
-    "value-preserving recursive results and the assumed contract of flattened_sum / flattened_product.")
-ASSUMPTIONS = ["flattened_sum / flattened_product: assumed contract (value = sum / product of the terms' values) for the proved kernel; the worklist loops "
-               "themselves, fold(), split_term/map_sum (dict bookkeeping) and dist() (recursive closure) are bounded only",
-               "real arithmetic mathematical; arity bound 3 for the kernel"]
+    "power, pairwise distinct monomials) are predicates written from the statement.  Proved (z3): the worklist loops of "
+    "flattened_sum and flattened_product for every input list -- loop invariant 'fold(done) + fold(queue) = fold(terms)' in "
+    "an abstract commutative monoid (uninterpreted element values, folds instantiated without quantifiers), zero-valued "
+    "factors tracked for the early 'return 0', result flat (no node of the flattened class, no neutral element, a node "
+    "only with >= 2 children), termination by a size measure; FlattenMapper.map_sum / map_product for every arity 0..3 and "
+    "DistributeMapper.map_quotient preserve the value through those contracts.")
+ASSUMPTIONS = ["definitions instantiated as assumptions in the loop proofs: an n-ary node denotes the fold over its children; is_zero(x) true => x denotes zero "
+               "(A-RING, bounded-validated in C03); is_zero(x - 1) true => x denotes one; the statements proved are linear in uninterpreted monoid values, "
+               "hence valid in (Q,+,0) and (Q,*,1)",
+               "ConstantFoldingMapperBase.fold, TermCollector.split_term/map_sum (dict bookkeeping) and dist() (recursive closure) are bounded only",
+               "real arithmetic mathematical; arity bound 3 for the FlattenMapper handlers"]
 TRUSTED_BASE = ["z3 nonlinear real arithmetic", "own exact polynomial arithmetic (props.c11.Poly/RF) as the reference normal form"]
 
 
@@ -564,7 +569,9 @@ def bounded(tier, seed, procs):
 def proof_jobs(tier):
     import pymbolic.primitives as p
     from contracts import c11 as K
-    return [("mapper", mc, getattr(p, k), K.hooks) for mc, k in K.MAPPER_JOBS]
+    jobs = [("mapper", mc, getattr(p, k), K.hooks) for mc, k in K.MAPPER_JOBS]
+    jobs += [("function", fc, None, K.fold_hooks) for fc in K.LOOP_FUNCTIONS]
+    return jobs
 
 
 def replay(case):
